@@ -26,6 +26,47 @@ pub fn pow2(e: usize) -> u8 {
     r
 }
 
+pub fn inv(a: u8) -> u8 {
+    // a^254 = a^-1 in GF(256)
+    let mut r = 1u8;
+    let mut b = a;
+    let mut e = 254u32;
+    while e > 0 {
+        if e & 1 == 1 {
+            r = mul(r, b);
+        }
+        b = mul(b, b);
+        e >>= 1;
+    }
+    r
+}
+
+/// solve the square system m * x = rhs over GF(256) by Gaussian elimination; None if singular
+pub fn solve(mut m: Vec<Vec<u8>>, mut rhs: Vec<u8>) -> Option<Vec<u8>> {
+    let n = rhs.len();
+    for col in 0..n {
+        let piv = (col..n).find(|r| m[*r][col] != 0)?;
+        m.swap(col, piv);
+        rhs.swap(col, piv);
+        let iv = inv(m[col][col]);
+        for j in col..n {
+            m[col][j] = mul(m[col][j], iv);
+        }
+        rhs[col] = mul(rhs[col], iv);
+        for r in 0..n {
+            if r != col && m[r][col] != 0 {
+                let f = m[r][col];
+                for j in col..n {
+                    let t = mul(f, m[col][j]);
+                    m[r][j] ^= t;
+                }
+                rhs[r] ^= mul(f, rhs[col]);
+            }
+        }
+    }
+    Some(rhs)
+}
+
 /// coefficients of prod_{i=1..k} (x - 2^i), highest degree first (g[0] = 1)
 pub fn generator(k: usize) -> Vec<u8> {
     let mut g = vec![1u8];
